@@ -163,13 +163,15 @@ PROPS["C08"] = {
             "point (engine/instrument.py: VLK_B / VLK_I, identity by default); the harness runs each function twice with equal public parameters "
             "(lengths, rounds, mode, offsets, NULL-ness) and independently chosen secrets (keys, schedules, tweaks, data, counters, buffered keystream, "
             "previous object contents) and proves equal observation at an arbitrary witness position and equal observation count. Complete over secrets; "
-            "round counts symbolic up to MAX; key/tweak lengths by representatives; CTR/parallel call sizes bounded.",
+            "round counts symbolic up to MAX (Skinny vector block functions: loop contract, no unwinding); key/tweak lengths by representatives; CTR/parallel call sizes bounded.",
     "assumptions": ["observation points cover branch conditions and subscripts; unary-* dereferences and the byte offsets inside the READ_/WRITE_WORD macros are "
                     "not instrumented (their pointers/offsets are formed from parameters, loop indices and constants; audited by reading)",
                     "what the compilers emit (cmov vs branch, vector code) is NOT decided: source-level property only",
                     "SIMD CTR back ends: counter increment, set_counter and the encrypt loop are covered with the vector block function's body removed (ct.simd_*); of the vector "
-                    "block functions only Mantis (ct.vec128_mantis, thorough) is covered - the Skinny vector block functions have no branches or subscripts on data by construction "
-                    "(straight-line lane arithmetic), which the C08 jobs do not decide",
+                    "block functions Mantis is covered by unwinding its 8 rounds (ct.vec128_mantis, thorough) and the four Skinny vector block functions of the 128-bit back ends (Skinny-128 and Skinny-64, both "
+                    "directions) by a LOOP CONTRACT on the round loop of the two-run composition (ct.vecloop_*: every round count, no unwinding; one observation per iteration, "
+                    "run 1's witness record preserved); their `.r2` companions (rounds <= 2 unwound, bounded) only serve to turn a broken loop proof into a concrete two-run trace; the two 8-lane functions of the 256-bit back end are NOT covered by a C08 job "
+                    "(CBMC's property instrumentation of that translation unit did not finish in 30 CPU-minutes): same straight-line lane arithmetic, audited by reading only",
                     "bounded: CTR/parallel call sizes <= 40/48/24 bytes, key and tweak lengths by representatives"],
 }
 PROPS["C19"] = {
